@@ -103,6 +103,7 @@ def tell(msg: str) -> None:
                 vertical_horizontal_types = {
                     1: "Acquiring mode",
                     2: "Capturing/Maintaining mode",
+                    3: "Reserved",
                 }
                 tcas_ra_types = {0: "Not active", 1: "Active"}
                 alt, alt_source, alt_ref = adsb.target_altitude(msg)
